@@ -21,6 +21,7 @@ Tree edges ("actions"):  ('s', idx, n) poke alphabet entry idx on the free wires
 and call ``clk(n)``;  ('clear',) ``Waveform.clear()``;  ('clk0',) poke and call
 ``clk(0)``.
 """
+import copy
 import gc
 import itertools
 import re
@@ -39,6 +40,9 @@ def alpha_wide(w):
     if w == 2:
         return [0, 1, 2, 3]
     m = (1 << w) - 1
+    if w >= 64:
+        # neighbours above 2**63 that differ only in their low bits, next to values below 2**63
+        return [0, (1 << 63) + 1, (1 << 63) + 2, m]
     return [0, 1, 0xA if w == 4 else (0x1ABCDEF0A & m), m]
 
 
@@ -50,6 +54,7 @@ SHAPES = {
     'w2': {'entries': ['a'], 'W': 2},
     'w4': {'entries': ['a'], 'W': 4},
     'w33': {'entries': ['a'], 'W': 33},
+    'w64': {'entries': ['a'], 'W': 64},
     'dup1': {'entries': ['b', 'b']},
     'dup4': {'entries': ['a', 'a'], 'W': 4},
     'inport1': {'entries': ['b.in']},
@@ -157,7 +162,7 @@ def cost(d):
     A = len(alpha)
     free = max(0, d['L'] - len(d['prefix']))
     if d['mode'] == 'rerender':
-        return 4 * (A ** (d['L'] + 1)) ** 2
+        return 6 * (A ** (d['L'] + 1)) ** 2
     return (A + (1 if d['mode'] == 'split' else 0)) ** free * (2 * d['L'] if d['mode'] == 'special' else 1)
 
 
@@ -246,11 +251,24 @@ def apply(c, act, sanity=True):
         # an observation in the middle of a history (mode rerender): one rendering (default, or shortNames=True), result discarded
         try:
             if len(act) > 1:
-                c.wf.get_wavedrom(shortNames=True)
+                wd = c.wf.get_wavedrom(shortNames=True)
             else:
-                c.wf.get_wavedrom()
+                wd = c.wf.get_wavedrom()
+            # what a call returned belongs to the caller: kept, and compared with a deep copy at every later check
+            c.kept = getattr(c, 'kept', []) + [(wd, copy.deepcopy(wd))]
         except Exception:
             pass
+        return
+    if act[0] == 'dupwf':
+        # a second recorder under the name of the working one is refused (exception ignored, as in an interactive session);
+        # the simulator is obtained again afterwards.  The working recorder must go on recording.
+        try:
+            with core.quiet():
+                py4hw.Waveform(c.sys, 'wf', list(c.objs))
+        except Exception:
+            pass
+        core.reset_prepared()
+        c.sim = c.sys.getSimulator()
         return
     if act[0] == 'clk0':
         v = c.alpha[-1]
@@ -306,10 +324,18 @@ def check_node(c, short_too=False):
         wd = c.wf.get_wavedrom()
         bad.extend(_check_wavedrom(c, wd, exp, n))
         if short_too:
+            snap = copy.deepcopy(wd)
             wd2 = c.wf.get_wavedrom(shortNames=True)
             for x in _check_wavedrom(c, wd2, exp, n):
                 x[1]['shortNames'] = True
                 bad.append(x)
+            if wd != snap:
+                bad.append(('wavedrom', {'problem': 'the diagram returned by get_wavedrom() was changed by the following call',
+                                         'was': _lanes(snap), 'is_now': _lanes(wd)}))
+        for old, snap in getattr(c, 'kept', []):
+            if old != snap:
+                bad.append(('wavedrom', {'problem': 'a diagram returned by an earlier get_wavedrom() call was changed by a later call',
+                                         'was': _lanes(snap), 'is_now': _lanes(old)}))
     except core.HarnessError:
         raise
     except Exception as e:
@@ -437,7 +463,8 @@ def _rerender(d):
     outcomes = set()
     hists = [h for n in range(L + 1) for h in itertools.product(A, repeat=n)]
     for h1 in hists:
-        for mid in ((('render',), ('clear',)), (('render',),), (('render', 1), ('clear',)), (('render',), ('clk0',))):
+        for mid in ((('render',), ('clear',)), (('render',),), (('render', 1), ('clear',)), (('render',), ('clk0',)),
+                    (('dupwf',),), (('render',), ('dupwf',), ('clear',))):
             for h2 in hists:
                 path = [('s', i, 1) for i in h1] + list(mid) + [('s', i, 1) for i in h2]
                 c = run_path(shape, path)
